@@ -57,11 +57,14 @@ def bar : P Unit := do let t ← P.tok; if t = "|" then pure () else failure
 def pPix : P (List Pixel) := P.list (do let l ← P.nat; let v ← P.rat; pure ⟨l, v⟩)
 
 def parseDType : String → Option DType
-  | "u8" => some .u8 | "u16" => some .u16 | "i64" => some .i64 | "f32" => some .f32 | "f64" => some .f64
+  | "u8" => some .u8 | "u16" => some .u16 | "u32" => some .u32 | "u64" => some .u64
+  | "i8" => some .i8 | "i16" => some .i16 | "i32" => some .i32 | "i64" => some .i64
+  | "f16" => some .f16 | "f32" => some .f32 | "f64" => some .f64
   | "bool" => some .bool | _ => none
 
 def Darsia.Sig.DType.show : DType → String
-  | .u8 => "u8" | .u16 => "u16" | .i64 => "i64" | .f32 => "f32" | .f64 => "f64" | .bool => "bool"
+  | .u8 => "u8" | .u16 => "u16" | .u32 => "u32" | .u64 => "u64" | .i8 => "i8" | .i16 => "i16" | .i32 => "i32" | .i64 => "i64"
+  | .f16 => "f16" | .f32 => "f32" | .f64 => "f64" | .bool => "bool"
 
 /-- operational call: label VALUES per pixel, element type of the signal; response `<dtype> v ..` -/
 def showCall (ms : List M) (d : DType) (sig : List Pixel) : String :=
